@@ -291,10 +291,40 @@ fn cmd_gen_cases(m: &HashMap<String, String>) {
             let specs = kinds[i % kinds.len()];
             let nn = rng.gen_range(minn..=maxn);
             let p = [0.3, 0.5, 0.8][rng.gen_range(0..3)];
-            let (weights, d): (Vec<i64>, i64) = match i % 3 { 0 => (vec![1, 3], 2), 1 => (vec![1, 2, 3, 5], 2), _ => (vec![1, 3, 4, 7], 4) };
+            // the last form scales every weight by 2^-40 (exact): whole path lengths stay below 1e-9, which an
+            // absolute tolerance in a distance comparison would merge
+            let (weights, d): (Vec<i64>, i64) = match i % 4 { 0 => (vec![1, 3], 2), 1 => (vec![1, 2, 3, 5], 2), 2 => (vec![1, 3, 4, 7], 4), _ => (vec![1, 2, 3, 5], 1 << 40) };
             let mut case = cases::case_json(specs, &cases::random_graph(&mut rng, specs, nn, p, &weights), "halves");
             case["wdiv"] = serde_json::json!(d);
             writeln!(out, "{}", case).unwrap();
+        }
+        return;
+    }
+    if kind == "patterned" {
+        // weights that follow a pattern a shortcut could mistake for "no weights": a function of the source
+        // node, of the target node, one constant other than 1, all 1 except one heavy edge
+        for i in 0..n {
+            let specs = kinds[i % kinds.len()];
+            let nn = rng.gen_range(minn..=maxn);
+            let p = [0.25, 0.4, 0.6][rng.gen_range(0..3)];
+            let mut ops = cases::random_graph(&mut rng, specs, nn, p, &[1]);
+            let f: Vec<i64> = (0..=nn).map(|_| rng.gen_range(1..=4)).collect();
+            let k = rng.gen_range(2..=3);
+            let mode = (i / kinds.len()) % 4;
+            for op in ops.iter_mut() {
+                if let model::Op::AddEdges(es) = op {
+                    let heavy = if es.is_empty() { 0 } else { rng.gen_range(0..es.len()) };
+                    for (j, e) in es.iter_mut().enumerate() {
+                        e.2 = match mode {
+                            0 => f[e.0 as usize],
+                            1 => f[e.1 as usize],
+                            2 => k,
+                            _ => if j == heavy { 5 } else { 1 },
+                        };
+                    }
+                }
+            }
+            writeln!(out, "{}", cases::case_json(specs, &ops, "patterned")).unwrap();
         }
         return;
     }
